@@ -160,7 +160,7 @@ func vpH_c02_resigned() {
 	if stale {
 		doc.Set("signature", vpDocMap("algorithm", "EdDSA", "signed_fields", []any{"command", "env", "matrix", "plugins", "repository_url"}, "value", "stale"))
 	}
-	srcs := []string{"thing", "o/t/", "o//t#v1", "o/t/#v1", "./x//y", "a/b/c/", "o/./t", "github.com/o/t-buildkite-plugin/#v2"}
+	srcs := []string{"thing", "o/t/", "o//t#v1", "o/t/#v1", "./x//y", "a/b/c/", "o/./t", "github.com/o/t-buildkite-plugin/#v2", "Thing", "My-Org/T#V1", "github.com/buildkite-plugins/thing-buildkite-plugin"}
 	if vpBool() {
 		doc.Set("plugins", []any{srcs[vpInt(0, len(srcs)-1)], vpDocMap(srcs[vpInt(0, len(srcs)-1)], vpDocMap("k", "v"))})
 	}
